@@ -127,7 +127,7 @@ def apply_contract(spec, fnode):
         tag = "call[%s]#%d" % (spec.name(), k)
         c0 = Ctx(ex, st, st, a)
         for nm, f in spec.requires(c0):
-            if nm.startswith("python."):
+            if nm.startswith("python.") or nm.startswith("datainv."):
                 # a type invariant of a built-in Python value (dict insertion order, distinct parameter names of a
                 # Signature): true of every such value by construction; assumed, and listed as trusted
                 st.assume(f)
@@ -138,6 +138,13 @@ def apply_contract(spec, fnode):
         ghost = spec.call_events(ex, st, Ctx(ex, pre, st, a)) or {}
         for m in spec.modifies(Ctx(ex, pre, st, a, ghost)):
             fld, ref = m[0], m[1]
+            if callable(ref):  # (field, predicate): every object satisfying the predicate may change
+                old = st.field(fld)
+                new = fresh("modset_" + fld.replace(":", "_"), field_sort(fld))
+                r = z3.Int("r!ms")
+                st.heap[fld] = new
+                st.assume(z3.ForAll([r], z3.Implies(z3.Not(ref(r)), z3.Select(new, r) == z3.Select(old, r))))
+                continue
             nv = fresh("mod_" + fld.replace(":", "_"), field_sort(fld).range())
             if len(m) == 3:  # guarded entry: the object is in the modifies clause only if the guard holds
                 nv = z3.If(m[2], nv, st.get(fld, ref))
@@ -267,7 +274,7 @@ def verify_unit(spec, registry, fuel=2, timeout_ms=10000, mutate=None, prop=None
                 ex.cover.add("raise")
             else:
                 raise Unsupported("%s escapes the function" % o[0])
-            if s.todo is not None:
+            if s.todo is not None and not (o[0] == "raise" and getattr(spec, "trace_prefix_on_raise", False)):
                 parts.append(("%s.trace_complete" % tag, z3.Length(s.todo) == 0, "trace"))
             # frame: every pre-existing object outside the modifies clause is unchanged
             mods = spec.modifies(cc)
@@ -275,7 +282,7 @@ def verify_unit(spec, registry, fuel=2, timeout_ms=10000, mutate=None, prop=None
                 if fld in pre.heap and arr.eq(pre.heap[fld]):
                     continue
                 r = fresh("frame_r")
-                excl = [(r != m[1]) if len(m) == 2 else z3.Or(z3.Not(m[2]), r != m[1]) for m in mods if m[0] == fld]
+                excl = [z3.Not(m[1](r)) if callable(m[1]) else (r != m[1]) if len(m) == 2 else z3.Or(z3.Not(m[2]), r != m[1]) for m in mods if m[0] == fld]
                 parts.append(("%s.frame.%s" % (tag, fld),
                               z3.Implies(z3.And([r < pre.ctr] + excl), z3.Select(arr, r) == z3.Select(pre.field(fld), r)), "frame"))
             # one VC per exit path (conjunction of its clauses); split again only if it does not discharge
@@ -289,6 +296,12 @@ def verify_unit(spec, registry, fuel=2, timeout_ms=10000, mutate=None, prop=None
                                           {"path": list(s.path), "trivial": True, "clauses": len(parts)}))
     except Unsupported as e:
         rep.error = "unsupported: %s" % e
+    except (KeyError, AttributeError, IndexError) as e:
+        # a sidecar spec refers to a program variable / shape that the current source no longer has: the unit is
+        # undecided (exit 2) -- never a verdict
+        import traceback
+        rep.error = "unsupported: spec anchor does not resolve on the current source (%s: %s) at %s" % (
+            type(e).__name__, e, traceback.format_exc().strip().splitlines()[-3].strip()[:120])
     rep.symex_s = time.time() - t0
     rep.obligations = ex.obls
     rep.paths = ex.paths
